@@ -110,7 +110,7 @@ theorem saveMain_exact (r r2 : Repo) (hph : (r.br r.longest).parentHeight = -1) 
     FilesExact r2.store.main (r.br r.longest).headers ((r.br r.longest).headers.length / H + 1) ∧
     r2.store.branches = r.store.branches ∧ r2.store.index = r.store.index ∧ r2.store.invalid = r.store.invalid ∧
     r2.disableDifficulty = r.disableDifficulty ∧ r2.disableSplit = r.disableSplit := by
-  unfold saveMainBranch at h
+  unfold saveMainBranch saveMainStart at h
   simp only at h
   have hpl : (r.br r.longest).prunedLowest = 0 := by unfold Branch.prunedLowest; omega
   have hno : ¬ ((r.br r.longest).offset ≠ 1 ∧
